@@ -38,8 +38,7 @@ Proof.
   - auto.
   - now rewrite (r_xs _ _ _ Rx).
   - rewrite (r_xs _ _ _ Rx). destruct (xpeek h a) as [[v l]|]; [|auto].
-    rewrite (r_accts _ _ _ Rx d). unfold tokl. destruct (aget (accts h) d); cbn; [|auto].
-    intros H. destruct (Z.eqb amt 0); [reflexivity|]. cbn in *. apply andb_prop in H as [_ H]. exact H.
+    rewrite (r_accts _ _ _ Rx d). unfold tokl. destruct (aget (accts h) d); cbn; auto.
   - rewrite (r_revs _ _ _ Rx). destruct (aget (revs h) id) as [[aj vj]|]; auto.
   - intros H. apply forallb_forall. intros [a y] Hin. cbn.
     rewrite forallb_forall in H. apply (In_aget _ _ _ (J_sorted _ HJ)) in Hin.
@@ -64,7 +63,7 @@ Proof.
   - destruct (sim_create _ _ _ _ _ _ _ _ _ W Rx HJ Hs); auto.
   - destruct (sim_update _ _ _ _ _ _ W Rx HJ Hs); auto.
   - destruct (sim_remove _ _ _ _ _ W Rx Hp Hs); auto.
-  - destruct (sim_delegate _ _ _ _ _ _ _ W Rx HJ Hp Hs) as [A B]. cbn [taint_next] in A, B. auto.
+  - destruct (sim_delegate _ _ _ _ _ _ _ W Rx HJ Hp Hs) as [A B]. auto.
   - destruct (sim_snapshot _ _ _ _ W Rx Hs); auto.
   - destruct (sim_revert _ _ _ _ _ W Rx HJ Hp Hs) as (A & B & C). rewrite C. auto.
   - destruct (sim_finalise _ _ _ _ W Rx Hs); auto.
@@ -72,7 +71,7 @@ Proof.
   - assert (HG : Good (core (a_root x))).
     { assert (J (a_step x ORoot)) as (G & _) by (apply J_step; [assumption|eapply (hpre_apre h t x ORoot); eauto]). exact G. }
     destruct (sim_commit _ _ _ _ W Rx HJ HG Hs); auto.
-  - destruct (sim_copy _ _ _ _ W Rx HJ Hp Hs); auto.
+  - destruct (sim_copy _ _ _ _ W Rx HJ eq_refl Hs); auto.
   - destruct (sim_list _ _ _ _ W Rx HJ Hp Hs); auto.
 Qed.
 
